@@ -99,6 +99,12 @@ class C10(Plugin):
             for ctx in (None, "div", "svg", "select"):
                 out.append({"k": 1, "opts": base, "markup": m, "tree": "dom", "omit": True, "ctx": ctx, "scripting": False})
                 out.append({"k": 0, "opts": base, "markup": m, "tree": "etree", "omit": False, "ctx": None, "scripting": False})
+        # the same local name in two namespaces with different verdicts, in one document, in both orders
+        for n in ("title", "audio", "video", "desc", "text", "a", "font", "image", "mi", "set", "style", "script", "switch", "details"):
+            for m in ("<svg><%s>x</%s></svg><%s>y</%s>" % (n, n, n, n), "<%s>y</%s><svg><%s>x</%s></svg>" % (n, n, n, n),
+                      "<math><%s>x</%s></math><div><%s>y</%s></div>" % (n, n, n, n), "<div><%s>y</%s></div><math><%s>x</%s></math>" % (n, n, n, n)):
+                out.append({"k": 1, "opts": base, "markup": m, "tree": "dom", "omit": False, "ctx": "div", "scripting": False})
+                out.append({"k": 1, "opts": base, "markup": m, "tree": "etree", "omit": True, "ctx": None, "scripting": False})
         # trees that cannot be written back: an end tag inside foreign content, then a raw-text-like element whose
         # attribute value carries markup (if the end tag misplaces an HTML element, the re-parse reads that markup)
         i = 0
@@ -180,6 +186,13 @@ class C10(Plugin):
             if t["type"] in ("StartTag", "EmptyTag"):
                 emitted.add(t["name"].lower())
         v = []
+        # "corresponds to a tag the sanitizer let through": what it let through is itself on the allow-lists
+        for t in passed:
+            if t["type"] in ("StartTag", "EmptyTag", "EndTag"):
+                ns, nm = t.get("namespace"), t["name"]
+                if not ((ns, nm) in S.allowed_elements or (ns is None and (HTML, nm) in S.allowed_elements)):
+                    v.append(("sanitizer-let-a-forbidden-tag-through", repr((ns, nm))))
+                    break
         implied = {"html", "head", "body"} if case["ctx"] is None else set()
         for n in nodes:
             if n[0] == "C":
